@@ -425,3 +425,56 @@ def lookup_bindings(chk: Check, rule: str) -> int:
                    "references would not resolve to the attached nodes"
                    % (f.qualname, k.name, c.func.attr, unparse(arg)[:40]), 2)
     return n
+
+
+def deferred_stage(chk: Check, rule: str) -> None:
+    """symbolic expressions are decoded in a deferred stage (they refer to symbols); the module
+    decoder must run that stage for every byte interval of every section, and the stage must
+    store one expression per map entry and release the kept message"""
+    repo = chk.repo
+    mod = repo.cls("Module")
+    f = mod.methods.get("_decode_protobuf")
+    bi = repo.cls("ByteInterval")
+    st = bi.methods.get("_decode_symbolic_expressions")
+    if f is None or st is None:
+        raise AnalysisError("anchor vanished: Module._decode_protobuf / ByteInterval._decode_symbolic_expressions")
+    chk.saw(f)
+    chk.saw(st)
+    ok = False
+    for lp in walk_no_nested(f.node):
+        if isinstance(lp, ast.For) and isinstance(lp.target, ast.Name) and \
+                (attr_path(lp.iter) or ("",))[-1] == "sections":
+            for lp2 in ast.walk(lp):
+                if isinstance(lp2, ast.For) and lp2 is not lp and isinstance(lp2.target, ast.Name) and \
+                        attr_path(lp2.iter) == (lp.target.id, "byte_intervals"):
+                    calls = [c for c in ast.walk(lp2) if isinstance(c, ast.Call)
+                             and attr_path(c.func) == (lp2.target.id, "_decode_symbolic_expressions")]
+                    filt = any(isinstance(x, (ast.If, ast.Continue, ast.Break)) for x in ast.walk(lp))
+                    ok = ok or (bool(calls) and not filt)
+        if isinstance(lp, ast.For) and isinstance(lp.target, ast.Name) and \
+                (attr_path(lp.iter) or ("",))[-1] == "byte_intervals" and len(attr_path(lp.iter) or ()) == 2:
+            calls = [c for c in ast.walk(lp) if isinstance(c, ast.Call)
+                     and attr_path(c.func) == (lp.target.id, "_decode_symbolic_expressions")]
+            ok = ok or (bool(calls) and not any(isinstance(x, (ast.If, ast.Continue, ast.Break)) for x in ast.walk(lp)))
+    chk.ob(rule, "Module._decode_protobuf:runs-deferred-expression-stage", ok, f.loc(),
+           "Module._decode_protobuf must call _decode_symbolic_expressions for every byte interval of "
+           "every section (after the symbols): otherwise loaded intervals have no symbolic expressions", 3)
+    # inside the stage: one store per map entry, keyed by the entry's key
+    me = st.self_name
+    stores = []
+    for lp in walk_no_nested(st.node):
+        if isinstance(lp, ast.For) and isinstance(lp.target, ast.Tuple) and len(lp.target.elts) == 2 \
+                and "symbolic_expressions" in unparse(lp.iter) and "_proto_interval" in unparse(lp.iter):
+            k = lp.target.elts[0].id if isinstance(lp.target.elts[0], ast.Name) else None
+            c2 = CFG(st.node)
+            hits = c2.nodes_where(lambda n: isinstance(n, ast.Assign) and isinstance(n.targets[0], ast.Subscript)
+                                  and attr_path(n.targets[0].value) in ((me, "symbolic_expressions"),
+                                                                        (me, "_symbolic_expressions"))
+                                  and attr_path(n.targets[0].slice) == (k,))
+            head = c2.by_ast[id(lp)]
+            body_in = [s_ for s_ in c2.g.successors(head) if c2.info[s_].kind == "branch" and c2.info[s_].value]
+            wit = c2.path_avoiding(body_in[0], head, hits) if body_in else [0]
+            stores.append(wit is None and bool(hits))
+    chk.ob(rule, "ByteInterval._decode_symbolic_expressions:stores-every-entry", bool(stores) and all(stores),
+           st.loc(), "the deferred stage must store one expression under its offset for every entry of "
+           "the message map, on every path of the loop", 3)
